@@ -44,6 +44,10 @@ pub enum Op {
     FinishConn { k: u16 },
     Advance { ms: u32 },
     Stop { graceful: bool },
+    /// a client connects; between the accept loop's send and its inc_counter (hook H3) the worker
+    /// runs, takes the connection and calls the service, and a stop arrives ("stop racing new
+    /// connections", with the connection in progress but not yet counted)
+    DispatchStopRace { l: u16, graceful: bool },
 }
 
 #[derive(Clone, Debug, Serialize, Deserialize, PartialEq)]
@@ -236,7 +240,6 @@ struct StopRec {
 }
 
 struct Engine {
-    stepped: Stepped,
     #[allow(dead_code)]
     wq: WakerQueueV,
     worker: Option<Pin<Box<WorkerFut>>>,
@@ -274,9 +277,9 @@ impl Engine {
     }
 
     /// step the accept loop to quiescence and absorb the dispatch log
-    fn accept_quiesce(&mut self) {
+    fn accept_quiesce(&mut self, stepped: &mut Stepped) {
         for _ in 0..200 {
-            let r = catch_unwind(AssertUnwindSafe(|| self.stepped.step()));
+            let r = catch_unwind(AssertUnwindSafe(|| stepped.step()));
             match r {
                 Ok(Step::Blocked) | Ok(Step::Exited) => break,
                 Ok(_) => {}
@@ -401,6 +404,27 @@ impl Engine {
         }).unwrap_or(0)
     }
 
+    /// issue the (single) stop and run the worker task that the stop channel woke
+    fn issue_stop(&mut self, graceful: bool) {
+        if !self.stops.is_empty() || self.worker.is_none() {
+            return;
+        }
+        let rx = self.server.stop(graceful);
+        let in_progress = self.in_progress_now();
+        if !in_progress.is_empty() {
+            self.label("stop-with-connections-in-progress");
+        }
+        if !self.dispatched.is_empty() {
+            self.label("stop-with-queued-connections");
+        }
+        self.label(if graceful { "graceful-stop" } else { "forced-stop" });
+        let t0 = self.w.now_ms.get();
+        self.stops.push(StopRec { graceful, t0, rx, in_progress, outcome: None });
+        if self.woken() {
+            self.poll_worker();
+        }
+    }
+
     fn in_progress_now(&self) -> Vec<usize> {
         self.w.conns.borrow().iter().enumerate().filter(|(_, c)| c.called > 0 && !c.done).map(|(i, _)| i).collect()
     }
@@ -487,10 +511,9 @@ async fn run_async(c: &Case, prop: Prop) -> CaseResult {
         addrs.push(l.local_addr().unwrap());
         listeners.push(Listener::Tcp(l));
     }
-    let stepped = prepared.build(listeners, vec![ha]).map_err(|e| Fail::new("harness/setup", format!("{e}")))?;
+    let mut stepped = prepared.build(listeners, vec![ha]).map_err(|e| Fail::new("harness/setup", format!("{e}")))?;
     let flag = Arc::new(FlagWaker(AtomicUsize::new(1))); // a freshly spawned task is polled once
     let mut e = Engine {
-        stepped,
         wq,
         worker: Some(Box::pin(wf)),
         server: hs,
@@ -530,7 +553,7 @@ async fn run_async(c: &Case, prop: Prop) -> CaseResult {
                     w.conns.borrow_mut().push(ConnSlot { done: false, waker: None, called: 0, finished_at: None, dropped_unfinished: false });
                     e.clients.push(s);
                     e.backlog[l].push_back(id);
-                    e.accept_quiesce();
+                    e.accept_quiesce(&mut stepped);
                     let unready = w.state.borrow().iter().any(|s| *s == SvcState::Pending) || w.fail_next.borrow().iter().any(|f| *f);
                     if unready {
                         queued_while_unready = true;
@@ -579,7 +602,7 @@ async fn run_async(c: &Case, prop: Prop) -> CaseResult {
                         wk.wake();
                     }
                     yield_some().await; // the spawned connection task completes and drops its guard
-                    e.accept_quiesce();
+                    e.accept_quiesce(&mut stepped);
                 }
             }
             Op::Advance { ms } => {
@@ -608,25 +631,57 @@ async fn run_async(c: &Case, prop: Prop) -> CaseResult {
                 if !e.stops.is_empty() {
                     continue;
                 }
-                let rx = e.server.stop(graceful);
-                let in_progress = e.in_progress_now();
-                if !in_progress.is_empty() {
-                    e.label("stop-with-connections-in-progress");
-                }
-                if !e.dispatched.is_empty() {
-                    e.label("stop-with-queued-connections");
-                }
-                e.label(if graceful { "graceful-stop" } else { "forced-stop" });
-                e.stops.push(StopRec { graceful, t0: w.now_ms.get(), rx, in_progress, outcome: None });
-                // the worker task is woken by the stop channel and runs
-                if e.woken() {
-                    e.poll_worker();
-                    yield_some().await;
-                }
+                e.issue_stop(graceful);
+                yield_some().await;
                 e.resolve_stops();
                 // a forced stop must complete in that very turn
                 if !graceful && e.worker.is_some() {
                     e.flagv(Prop::C06, "C06/forced-not-immediate", "forced worker stop did not complete in the executor turn that delivered the command".into());
+                }
+            }
+            Op::DispatchStopRace { l, graceful } => {
+                if !e.stops.is_empty() || e.worker.is_none() || e.clients.len() >= 10 {
+                    continue;
+                }
+                let l = vcore::pick(l, n);
+                if let Ok(s) = std::net::TcpStream::connect(e.addrs[l]) {
+                    let _ = socket2::SockRef::from(&s).set_linger(Some(Duration::ZERO));
+                    let id = e.clients.len();
+                    w.idents.borrow_mut().push((format!("{}->{}", s.local_addr().map(|a| a.to_string()).unwrap_or_default(), e.addrs[l]), id));
+                    w.conns.borrow_mut().push(ConnSlot { done: false, waker: None, called: 0, finished_at: None, dropped_unfinished: false });
+                    e.clients.push(s);
+                    e.backlog[l].push_back(id);
+                    // the yield-point callback runs on this thread inside stepped.step(); it only
+                    // touches the engine (the stepped driver is a separate object)
+                    let ep: *mut Engine = &mut e;
+                    let fired = Rc::new(Cell::new(false));
+                    let f2 = fired.clone();
+                    hv::set_yield_callback(Some(Box::new(move |_p| {
+                        if f2.replace(true) {
+                            return;
+                        }
+                        // SAFETY: single thread, synchronous call from within `stepped.step()`;
+                        // `e` outlives the callback, which is removed right after the steps below
+                        let e: &mut Engine = unsafe { &mut *ep };
+                        // absorb the dispatch log entry of the connection that has just been sent
+                        for d in hv::take_dispatch_log() {
+                            if let Some(id) = e.backlog[d.token].pop_front() {
+                                if d.worker == Some(0) {
+                                    e.dispatched.push_back((id, d.token));
+                                    e.all_dispatched.push((id, d.token));
+                                }
+                            }
+                        }
+                        if e.woken() {
+                            e.poll_worker(); // the worker receives the connection and calls the service
+                        }
+                        e.label("stop-raced-with-uncounted-connection");
+                        e.issue_stop(graceful);
+                    })));
+                    e.accept_quiesce(&mut stepped);
+                    hv::set_yield_callback(None);
+                    yield_some().await;
+                    e.resolve_stops();
                 }
             }
         }
@@ -656,7 +711,7 @@ async fn run_async(c: &Case, prop: Prop) -> CaseResult {
                 }
             }
             yield_some().await;
-            e.accept_quiesce();
+            e.accept_quiesce(&mut stepped);
             if e.woken() {
                 e.poll_worker();
                 yield_some().await;
